@@ -111,6 +111,17 @@ theorem distance_scale (a : ℝ) (ha : 0 < a) (x y : List ℝ) (h : x.length = y
     field_simp
   rw [this, Real.sqrt_mul hpos, Real.sqrt_sq (le_of_lt ha)]
 
+/-- The recorded finding `C08:regulariser-scale`, as a theorem about the model: because the regulariser is absolute, the
+    distance is NOT homogeneous — at coincident points `distance(a x, a x) = √ε` whatever `a`, while `a · distance(x, x) = a √ε`.
+    (Exact scale covariance of kernel values therefore fails by the `ε/a²` term of `distance_scale`; the checks budget it.) -/
+theorem distance_not_homogeneous (a : ℝ) (ha : 0 < a) (ha1 : a ≠ 1) (x : List ℝ) :
+    distance (scale a x) (scale a x) ≠ a * distance x x := by
+  rw [distance_eq _ _ rfl, distance_eq _ _ rfl, sqdist_self, sqdist_self, zero_add]
+  have he : 0 < Real.sqrt (distEps : ℝ) := Real.sqrt_pos.mpr distEps_pos
+  intro h
+  have : (1 : ℝ) * Real.sqrt distEps = a * Real.sqrt distEps := by rw [one_mul]; exact h
+  exact ha1 (mul_right_cancel₀ (ne_of_gt he) this).symm
+
 /-! ### kernels built from distances -/
 
 /-- Expression trees whose leaves are the five distance-based kernels and whose nodes use all
